@@ -57,6 +57,7 @@ ASSUMPTIONS = [
     'cadzow rank-1 / plane-wave claims only on dense rectangular layouts (every position of a regularly spaced grid occupied once; a sparse selection of rows is not one even when its ranks fill a rectangle); the NP1 checkerboard is exercised for the index maps and full rank only (DESIGN section 8)',
     'Float twins are compared with tolerances: rolling_window 1e-12, denoise stand-in 1e-12, savgol 1e-8 relative to the data scale (two different inversion algorithms on the normal equations), SVD identities 1e-9',
     'noise-reduction oracle only where the expected energy ratio is well below 1 (cadzow: dense layouts with >= 16 sites at rank 1, noise 0.3; svd: 4*rank <= min(nc, ns) and max >= 2*min): small cases reach ratios > 1 on the unchanged code',
+    'the implementation is exercised as a program uses it: every oracle call is repeated on the SAME argument objects among other library calls and must return the result of the original values; an argument object modified in place is only recorded (voltage.stack adds the key stack_word to the caller\'s header dict on the unchanged tree), reported only through a wrong RESULT of a later call; results aliasing internal buffers are not demanded either way (rolling_window returns its input object for window_len < 3)',
     'lp: pad >= 0; the class lpad = ceil(n*pad) = 0 is a recorded finding (empty output) and is excluded from the length oracle only',
     'non_uniform_savgol with len(x) == window >= 3 raises UnboundLocalError: recorded finding, excluded from the reproduction oracle only',
     'labels of stack are integers and data are integer-valued float64 (sums exact, one IEEE division for nanmean); header=None',
@@ -114,10 +115,204 @@ def _err(e):
     return 'err ' + type(e).__name__
 
 
+
+# ---------------------------------------------------------------------------------------------
+# purity: the model is a pure function of its arguments, so the implementation must be one too
+# ---------------------------------------------------------------------------------------------
+def _snap(o):
+    """Deep copy of arrays / lists / tuples / dicts (other values are immutable scalars, strings or callables)."""
+    if isinstance(o, np.ndarray):
+        return o.copy()
+    if isinstance(o, dict):
+        return {k: _snap(v) for k, v in o.items()}
+    if isinstance(o, (list, tuple)):
+        return type(o)(_snap(v) for v in o)
+    return o
+
+
+def _same(a, b):
+    """Bit identity (NaN == NaN, -0.0 != 0.0), same dtype and shape, same keys."""
+    if isinstance(a, np.ndarray) or isinstance(b, np.ndarray):
+        return (isinstance(a, np.ndarray) and isinstance(b, np.ndarray) and a.dtype == b.dtype and a.shape == b.shape
+                and np.ascontiguousarray(a).tobytes() == np.ascontiguousarray(b).tobytes())
+    if isinstance(a, dict) or isinstance(b, dict):
+        return isinstance(a, dict) and isinstance(b, dict) and list(a.keys()) == list(b.keys()) and all(_same(a[k], b[k]) for k in a)
+    if isinstance(a, (list, tuple)) or isinstance(b, (list, tuple)):
+        return type(a) is type(b) and len(a) == len(b) and all(_same(u, v) for u, v in zip(a, b))
+    if isinstance(a, Exception) or isinstance(b, Exception):
+        return type(a) is type(b)
+    if isinstance(a, (float, np.floating)) and isinstance(b, (float, np.floating)):
+        return struct.pack('<d', float(a)) == struct.pack('<d', float(b))
+    return bool(a == b)
+
+
+PURITY_STATS = __import__('collections').Counter()
+
+
+def _close_result(a, b):
+    """Equality of two results of the same call: exact for integers / keys / shapes, 1e-9 (relative to the magnitude) for floats."""
+    if isinstance(a, Exception) or isinstance(b, Exception):
+        return type(a) is type(b)
+    if isinstance(a, dict) or isinstance(b, dict):
+        return isinstance(a, dict) and isinstance(b, dict) and list(a.keys()) == list(b.keys()) and \
+            all(_close_result(a[k], b[k]) for k in a)
+    if isinstance(a, (list, tuple)) or isinstance(b, (list, tuple)):
+        return isinstance(b, (list, tuple)) and isinstance(a, (list, tuple)) and len(a) == len(b) and \
+            all(_close_result(u, v) for u, v in zip(a, b))
+    try:
+        x, y = np.asarray(a), np.asarray(b)
+        if x.shape != y.shape:
+            return False
+        if x.dtype.kind in 'fc' or y.dtype.kind in 'fc':
+            fin = np.isfinite(x)
+            if not np.array_equal(fin, np.isfinite(y)):
+                return False
+            scale = max(1.0, float(np.max(np.abs(x[fin]))) if fin.any() else 1.0)
+            return bool(np.all(np.abs(x[fin] - y[fin]) <= 1e-9 * scale))
+        return bool(np.array_equal(x, y))
+    except Exception:
+        return bool(a == b)
+
+
+def _interleave(heavy=False):
+    """Other calls into the library between two identical calls (each on its own fresh arguments)."""
+    from ibldsp import cadzow, fourier, smooth, utils, voltage
+    with _quiet(), np.errstate(all='ignore'):
+        for n in (3, 4, 5, 8):
+            cadzow.traj_matrix_indices(n)
+            fourier.fscale(n)
+        smooth.rolling_window(np.arange(9.0), 5, 'hanning')
+        smooth.lp(np.arange(12.0), [0.1, 0.2])
+        fourier.lp(np.arange(16.0), 1, [0.1, 0.2])
+        fourier.hp(np.arange(16.0), 1, [0.1, 0.2])
+        utils.fcn_cosine([0.1, 0.2])(np.linspace(0, 1, 7))
+        if heavy:       # ismember2d compiles a numba kernel on every call (~0.2 s): only around the cadzow calls
+            xx, yy = np.array([0., 16., 0., 16., 0., 16.]), np.array([0., 0., 20., 20., 40., 40.])
+            cadzow.denoise(np.ones((6, 2), dtype=complex), xx, yy, 1)
+        voltage.svd_denoise_npx(np.arange(12.0).reshape(3, 4), rank=1)
+        voltage.stack(np.arange(6.0).reshape(3, 2), np.array([1, 0, 1]))
+
+
+def _probe(a):
+    """A library call of this property on one argument object (used after a call was seen to modify that object)."""
+    from ibldsp import smooth, voltage
+    with _quiet(), np.errstate(all='ignore'):
+        if isinstance(a, np.ndarray) and a.ndim == 1 and a.dtype.kind == 'f' and a.size >= 3:
+            return 'smooth.rolling_window({arg}, 3, "flat")', smooth.rolling_window(a, 3, 'flat')
+        if isinstance(a, np.ndarray) and a.ndim == 1 and a.dtype.kind in 'iu' and a.size >= 1:
+            return 'voltage.stack(ones((n, 1)), {arg}, fcn_agg=np.sum)', voltage.stack(np.ones((a.size, 1)), a, fcn_agg=np.sum)
+        if isinstance(a, np.ndarray) and a.ndim == 2 and a.size:
+            d = np.real(a) if a.dtype.kind == 'c' else a
+            return ('voltage.stack({arg}, zeros(n), fcn_agg=np.sum)',
+                    voltage.stack(np.asarray(d, dtype=float), np.zeros(a.shape[0], int), fcn_agg=np.sum))
+    return None, None
+
+
+def _leaves(o, path):
+    if isinstance(o, np.ndarray):
+        yield path, o
+    elif isinstance(o, dict):
+        for k, v in o.items():
+            yield from _leaves(v, f'{path}[{k!r}]')
+    elif isinstance(o, (list, tuple)):
+        for i, v in enumerate(o):
+            yield from _leaves(v, f'{path}[{i}]')
+
+
+def _shadow(o):
+    """Arguments of the same shapes and types but other values (float arrays reversed and rescaled; integer arrays kept,
+    they are sorted spike times / labels): what an earlier, unrelated use of the same function looks like."""
+    if isinstance(o, np.ndarray):
+        if o.dtype.kind in 'fc' and o.size:
+            return np.ascontiguousarray(o[::-1] * 0.5 + 1.0)
+        return o.copy()
+    if isinstance(o, dict):
+        return {k: _shadow(v) for k, v in o.items()}
+    if isinstance(o, (list, tuple)):
+        return type(o)(_shadow(v) for v in o)
+    return o
+
+
+def _argname(i, names):
+    return names[i] if names and i < len(names) else f'#{i}'
+
+
+def purity(name, fn, args, kwargs=None, names=None, heavy=False, before=None):
+    """Calls `fn(*args, **kwargs)` the way a program does — repeatedly, on the same objects, among other library calls —
+    and returns (first result, None) or (first result, the call sequence whose RESULT is wrong for the original values):
+      0. an earlier, unrelated use: the same function on other data of the same shapes (and `before()`, if given);
+      1. r1 = fn(args); whether an argument object was modified is only RECORDED (PURITY_STATS), never reported by itself;
+      2. other library functions are called on their own arguments, then r2 = fn(args) with the SAME argument objects:
+         r2 must be the result for the original values, i.e. equal r1 (which the surrounding oracle checks against the
+         property);
+      3. if step 1 modified an argument object, a further library call on that object must give what it gives on a copy
+         of the original values."""
+    kwargs = kwargs or {}
+
+    def call(a, k):
+        try:
+            with _quiet(), np.errstate(all='ignore'):
+                return fn(*a, **k)
+        except Exception as e:       # an error is a result too: it has to be the same error every time
+            return e
+
+    PURITY_STATS['call sequences'] += 1
+    a0, k0 = _snap(args), _snap(kwargs)
+    call(_shadow(a0), _shadow(k0))
+    if before is not None:
+        try:
+            with _quiet(), np.errstate(all='ignore'):
+                before()
+        except Exception:
+            pass
+    r1 = call(args, kwargs)
+    keep = _snap(r1)
+    modified = []
+    for i, (u, v) in enumerate(zip(args, a0)):
+        if not _same(u, v):
+            modified.append((_argname(i, names), u, v))
+    for key in k0:
+        if not _same(kwargs.get(key), k0[key]):
+            modified.append((key, kwargs.get(key), k0[key]))
+    if modified:
+        PURITY_STATS['argument object modified by ' + name.split('(')[0] + ': ' + modified[0][0]] += 1
+    _interleave(heavy)
+    r2 = call(args, kwargs)
+    if not _close_result(r2, keep):
+        return keep, (f'call sequence: (the same function on other data of the same shapes); r1 = {name}; (other library calls on '
+                      f'their own data); r2 = the same call with the SAME '
+                      f'argument objects -> r2 = {_brief(r2)} but the result for these values is r1 = {_brief(keep)}'
+                      + (f' (the first call modified argument {modified[0][0]} in place)' if modified else ''))
+    for argname, now, orig in modified:
+        lo = dict(_leaves(orig, argname))
+        for path, leaf in _leaves(now, argname):
+            if path in lo and not _same(leaf, lo[path]):
+                what, got = _probe(leaf)
+                if what is None:
+                    continue
+                _, want = _probe(lo[path].copy())
+                if not _close_result(got, want):
+                    return keep, (f'call sequence: {name}; then {what.format(arg=path)} on the same object -> {_brief(got)}, but for '
+                                  f'the values the caller passed in it is {_brief(want)} ({name.split("(")[0]} modified {path} in place)')
+    return keep, None
+
+
+def _brief(r):
+    if isinstance(r, Exception):
+        return f'{type(r).__name__}: {r}'
+    if isinstance(r, np.ndarray):
+        return f'array{r.shape} {np.asarray(r).ravel()[:4].tolist()}…'
+    if isinstance(r, dict):
+        return '{' + ', '.join(f'{k}: {_brief(v)}' for k, v in list(r.items())[:4]) + '}'
+    if isinstance(r, (list, tuple)):
+        return '(' + ', '.join(_brief(v) for v in r[:3]) + ')'
+    return repr(r)
+
+
 # ---------------------------------------------------------------------------------------------
 # venn
 # ---------------------------------------------------------------------------------------------
-def _venn_real(case):
+def _venn_call(case):
     from ibldsp import spiketrains
     st = tuple(np.array([p[0] for p in s], dtype=int) for s in case['sorters'])
     ct = tuple(np.array([p[1] for p in s], dtype=int) for s in case['sorters'])
@@ -125,8 +320,13 @@ def _venn_real(case):
     kw = dict(channels_binsize=case['cbin'], fs=case['fs'], num_channels=case['nch'])
     kw['samples_binsize'] = case['sbin'] or None
     kw['chunk_size'] = case['chunk'] or None
+    return f, (st, ct), kw
+
+
+def _venn_real(case):
+    f, args, kw = _venn_call(case)
     with _quiet():
-        return f(st, ct, **kw)
+        return f(*args, **kw)
 
 
 def _venn_impl(case):
@@ -203,10 +403,19 @@ def oracle_venn(case):
         return None
     if any(p[1] >= case['nch'] for s in case['sorters'] for p in s):
         return None
-    try:
-        r = _venn_real(case)
-    except Exception as e:
-        return f'raised {type(e).__name__}: {e}'
+    if case.get('purity', True):
+        f, args, kw = _venn_call(case)
+        r, prob = purity(f'spiketrains.spikes_venn{len(case["sorters"])}(samples_tuple, channels_tuple, **kw)', f, args, kw,
+                         names=('samples_tuple', 'channels_tuple'))
+        if prob:
+            return prob
+        if isinstance(r, Exception):
+            return f'raised {type(r).__name__}: {r}'
+    else:
+        try:
+            r = _venn_real(case)
+        except Exception as e:
+            return f'raised {type(e).__name__}: {e}'
     for j, s in enumerate(case['sorters']):
         tot = sum(int(v) for key, v in r.items() if key[j] == '1')
         if tot != len(s):
@@ -276,10 +485,37 @@ def oracle_stack(case):
     from ibldsp import voltage
     data = np.array(case['data'], dtype=np.float64)
     word = np.array(case['word'], dtype=int)
-    try:
-        st, fold = voltage.stack(data, word, fcn_agg=np.sum) if case['agg'] == 'sum' else voltage.stack(data, word)
-    except Exception as e:
-        return f'raised {type(e).__name__}: {e}'
+    kw = {'fcn_agg': np.sum} if case['agg'] == 'sum' else {}
+    if case.get('purity', True):
+        r, prob = purity('voltage.stack(data, word' + (', fcn_agg=np.sum)' if kw else ')'), voltage.stack, (data, word), kw,
+                         names=('data', 'word'))
+        if prob:
+            return prob
+        if isinstance(r, Exception):
+            return f'raised {type(r).__name__}: {r}'
+        st, fold = r
+        # with a header: same stack and fold, aggregated header = per-label mean.  The unchanged code adds the key
+        # 'stack_word' to the caller's dict (recorded in PURITY_STATS, not a demand); calling again with the same dict
+        # must still give the same result.
+        hvals = data[:, 0] * 0.5 + 1.0
+        r, prob = purity('voltage.stack(data, word, header={"h": …}' + (', fcn_agg=np.sum)' if kw else ')'), voltage.stack,
+                         (data, word), dict(kw, header={'h': hvals.copy()}), names=('data', 'word'))
+        if prob:
+            return prob
+        if isinstance(r, Exception):
+            return f'with a header: raised {type(r).__name__}: {r}'
+        st_h, hs = r
+        if not _close_result(st_h, st) or 'fold' not in hs or not _close_result(hs['fold'], fold):
+            return 'with a header the stack / fold differ from the call without header'
+        labels_h = sorted(set(case['word']))
+        want_h = [float(np.mean([hv for w_, hv in zip(case['word'], hvals) if w_ == g])) for g in labels_h]
+        if 'h' not in hs or not np.allclose(np.asarray(hs['h'], dtype=float), want_h, rtol=1e-12, atol=1e-9):
+            return f'aggregated header {hs.get("h")} is not the per-label mean {want_h}'
+    else:
+        try:
+            st, fold = voltage.stack(data, word, **kw)
+        except Exception as e:
+            return f'raised {type(e).__name__}: {e}'
     groups = {}
     for w, row in zip(case['word'], case['data']):
         groups.setdefault(w, []).append(row)
@@ -401,10 +637,17 @@ def oracle_rolling(case):
     if wl > n:
         return None
     x = np.array(case['x'], dtype=float) if 'x' in case else np.cos(np.arange(n) * 0.7) * 3 + 1
-    try:
-        y = smooth.rolling_window(x, wl, win)
-    except Exception as e:
-        return f'raised {type(e).__name__}: {e}'
+    if case.get('purity', True):
+        y, prob = purity(f'smooth.rolling_window(x, {wl}, {win!r})', smooth.rolling_window, (x, wl, win), names=('x',))
+        if prob:
+            return prob
+        if isinstance(y, Exception):
+            return f'raised {type(y).__name__}: {y}'
+    else:
+        try:
+            y = smooth.rolling_window(x, wl, win)
+        except Exception as e:
+            return f'raised {type(e).__name__}: {e}'
     if len(y) != n:
         return f'output has {len(y)} samples for an input of {n} (window_len={wl})'
     c = 2.75
@@ -440,10 +683,17 @@ def oracle_lp(case):
         return None
     fac = case.get('fac', [0.1, 0.2])
     x = np.sin(np.arange(n) * 0.3) + 0.5
-    try:
-        y = smooth.lp(x, fac, pad=pad)
-    except Exception as e:
-        return f'raised {type(e).__name__}: {e}'
+    if case.get('purity', True):
+        y, prob = purity(f'smooth.lp(ts, {fac}, pad={pad})', smooth.lp, (x, list(fac)), {'pad': pad}, names=('ts', 'fac'))
+        if prob:
+            return prob
+        if isinstance(y, Exception):
+            return f'raised {type(y).__name__}: {y}'
+    else:
+        try:
+            y = smooth.lp(x, fac, pad=pad)
+        except Exception as e:
+            return f'raised {type(e).__name__}: {e}'
     if len(y) != n:
         return f'output has {len(y)} samples for an input of {n} (pad={pad})'
     c = -1.5
@@ -508,10 +758,17 @@ def oracle_savgol(case):
     co = np.array(case.get('coef', [0.5, -1.0, 0.25, 0.1][:p + 1]), dtype=float)[:p + 1]
     xc = x - x.mean()
     y = np.polyval(co[::-1], xc)
-    try:
-        ys = smooth.non_uniform_savgol(x, y, w, p)
-    except Exception as e:
-        return f'raised {type(e).__name__}: {e}'
+    if case.get('purity', True):
+        ys, prob = purity(f'smooth.non_uniform_savgol(x, y, {w}, {p})', smooth.non_uniform_savgol, (x, y, w, p), names=('x', 'y'))
+        if prob:
+            return prob
+        if isinstance(ys, Exception):
+            return f'raised {type(ys).__name__}: {ys}'
+    else:
+        try:
+            ys = smooth.non_uniform_savgol(x, y, w, p)
+        except Exception as e:
+            return f'raised {type(e).__name__}: {e}'
     if len(ys) != len(y):
         return f'{len(ys)} output samples for {len(y)} input samples'
     scale = max(1.0, float(np.max(np.abs(y))))
@@ -558,11 +815,20 @@ def oracle_sinterp(case):
     good = int(np.sum(~np.isnan(sig)))
     if good <= case['window'] or good < 4:
         return None
-    try:
-        with np.errstate(all='ignore'):
-            out = smooth.smooth_interpolate_savgol(sig, window=case['window'], order=case['order'])
-    except Exception as e:
-        return f'raised {type(e).__name__}: {e}'
+    if case.get('purity', True):
+        out, prob = purity(f"smooth.smooth_interpolate_savgol(signal, window={case['window']}, order={case['order']})",
+                           smooth.smooth_interpolate_savgol, (sig,), {'window': case['window'], 'order': case['order']},
+                           names=('signal',))
+        if prob:
+            return prob
+        if isinstance(out, Exception):
+            return f'raised {type(out).__name__}: {out}'
+    else:
+        try:
+            with np.errstate(all='ignore'):
+                out = smooth.smooth_interpolate_savgol(sig, window=case['window'], order=case['order'])
+        except Exception as e:
+            return f'raised {type(e).__name__}: {e}'
     if len(out) != len(sig):
         return f'{len(out)} output samples for {len(sig)} input samples'
     if not np.all(np.isfinite(out)):
@@ -640,11 +906,25 @@ def oracle_cadzow(case):
     nf = 3
     W = rng.standard_normal((len(x), nf)) + 1j * rng.standard_normal((len(x), nf))
     full = min(_shape(lay))
-    try:
-        with np.errstate(all='ignore'):
-            out = cadzow.denoise(W, x, y, r=full)
-    except Exception as e:
-        return f'full rank: raised {type(e).__name__}: {e}'
+    if case.get('purity', True):
+        def other_geometry():
+            cadzow.denoise(np.ones((len(x), 1), dtype=complex), y.copy(), x.copy(), 1)
+        tr, prob = purity('cadzow.trajectory(x, y)', lambda a, b: list(cadzow.trajectory(a, b)), (x, y), names=('x', 'y'), heavy=True,
+                          before=other_geometry)
+        if prob:
+            return prob
+        out, prob = purity(f'cadzow.denoise(WAV, x, y, r={full})', cadzow.denoise, (W, x, y), {'r': full}, names=('WAV', 'x', 'y'),
+                           before=other_geometry)
+        if prob:
+            return prob
+        if isinstance(out, Exception):
+            return f'full rank: raised {type(out).__name__}: {out}'
+    else:
+        try:
+            with np.errstate(all='ignore'):
+                out = cadzow.denoise(W, x, y, r=full)
+        except Exception as e:
+            return f'full rank: raised {type(e).__name__}: {e}'
     if out.shape != W.shape or not np.allclose(out, W, atol=TOL_ID, rtol=0):
         return f'full rank r={full}: output differs from input by {float(np.max(np.abs(out - W))):.3g}'
     if not _is_dense(lay):
@@ -681,10 +961,18 @@ def oracle_svd(case):
     nc, ns, rho = case['nc'], case['ns'], case['rho']
     coll = None if case.get('collection') is None else np.array(case['collection'], dtype=int)
     D = rng.standard_normal((nc, ns))
-    try:
-        out = voltage.svd_denoise_npx(D, rank=nc, collection=coll)
-    except Exception as e:
-        return f'raised {type(e).__name__}: {e}'
+    if case.get('purity', True):
+        out, prob = purity(f'voltage.svd_denoise_npx(datr, rank={nc}, collection=…)', voltage.svd_denoise_npx, (D,),
+                           {'rank': nc, 'collection': coll}, names=('datr',))
+        if prob:
+            return prob
+        if isinstance(out, Exception):
+            return f'raised {type(out).__name__}: {out}'
+    else:
+        try:
+            out = voltage.svd_denoise_npx(D, rank=nc, collection=coll)
+        except Exception as e:
+            return f'raised {type(e).__name__}: {e}'
     if out.shape != D.shape or not np.allclose(out, D, atol=TOL_ID, rtol=0):
         return f'full rank (rank=nc={nc}): output differs from input by {float(np.max(np.abs(out - D))):.3g}'
     if case.get('rank'):
@@ -701,10 +989,18 @@ def oracle_svd(case):
             shares[int(col)] = share
             if share > 0:
                 X[idx, :] = rng.standard_normal((len(idx), share)) @ rng.standard_normal((share, nsr))
-        try:
-            out = voltage.svd_denoise_npx(X, rank=r, collection=coll)
-        except Exception as e:
-            return f'raised {type(e).__name__}: {e}'
+        if case.get('purity', True):
+            out, prob = purity(f'voltage.svd_denoise_npx(datr, rank={r}, collection=…)', voltage.svd_denoise_npx, (X,),
+                               {'rank': r, 'collection': coll}, names=('datr',))
+            if prob:
+                return prob
+            if isinstance(out, Exception):
+                return f'raised {type(out).__name__}: {out}'
+        else:
+            try:
+                out = voltage.svd_denoise_npx(X, rank=r, collection=coll)
+            except Exception as e:
+                return f'raised {type(e).__name__}: {e}'
         scale = max(1.0, float(np.max(np.abs(X))))
         if out.shape != X.shape or not np.allclose(out, X, atol=TOL_ID * scale, rtol=0):
             bad = [int(c) for c in np.unique(cvals)
@@ -729,8 +1025,22 @@ def oracle_svd(case):
     return None
 
 
+def _seq(fn):
+    """With call sequences on (default), every oracle first calls the function on other data of the same shapes (cadzow: on
+    the geometry with x and y swapped); say so in the report, the wrong result may be a consequence of that earlier call."""
+    def wrapped(case):
+        r = fn(case)
+        if r and case.get('purity', True) and not r.startswith('call sequence'):
+            r = ('call sequence: the same function is first called on other data of the same shapes'
+                 + (' and on the geometry with x and y swapped' if case.get('family') == 'cadzow' else '') + '; then: ' + r)
+        return r
+    wrapped.__doc__ = fn.__doc__
+    return wrapped
+
+
 ORACLES = {'venn': oracle_venn, 'stack': oracle_stack, 'rolling': oracle_rolling, 'lp': oracle_lp, 'savgol': oracle_savgol,
            'sinterp': oracle_sinterp, 'cadzow': oracle_cadzow, 'svd': oracle_svd}
+ORACLES = {k: _seq(v) for k, v in ORACLES.items()}
 
 
 # ---------------------------------------------------------------------------------------------
@@ -800,6 +1110,9 @@ def correspondence(ctx):
                                'venn_chunk%bin!=0' if case['chunk'] % max(case['sbin'], 1) else 'venn_chunk%bin=0'),
                               'venn_err' if impl.startswith('err') else 'venn_ok'))
         add(_venn_line(case), fn)
+        if i % 4 == 0:
+            r = oracle_venn(case)
+            ctx.compare('venn-seq', dict(case, op='venn-seq'), r or 'ok', 'ok', nontrivial=(nchunks >= 2), tags=('venn-seq',))
 
     lap('venn real')
     # ---- stack, svd plan
@@ -807,6 +1120,9 @@ def correspondence(ctx):
         case = _stack_case(rng)
         impl = _stack_impl(case)
         rep = len(set(case['word'])) < len(case['word'])
+        if i % 3 == 0 and not case['mismatch']:
+            r = oracle_stack(case)
+            ctx.compare('stack-seq', dict(case, op='stack-seq'), r or 'ok', 'ok', nontrivial=rep, tags=('stack-seq',))
         add(_stack_line(case), lambda ans, case=case, impl=impl, rep=rep: ctx.compare(
             'stack', dict(case, op='stack'), impl, ans, nontrivial=rep,
             tags=('stack', 'stack_' + case['agg'], 'stack_mismatch' if case['mismatch'] else 'stack_groups=%s' % (
@@ -856,6 +1172,10 @@ def correspondence(ctx):
                         'ok' if ok else f'len={len(y)} y[:4]={y[:4].tolist()}', 'ok' if ok else ans[:120],
                         tags=('rolling', 'rolling_' + win))
         add(f'rolling {_bl(_window(win, wl))} {_bl(x)}', fn)
+        if i % 3 == 0:
+            r = oracle_rolling({'n': n, 'wl': wl, 'window': win, 'x': x.tolist()})
+            ctx.compare('rolling-seq', {'op': 'rolling-seq', 'n': n, 'wl': wl, 'window': win, 'x': x.tolist()}, r or 'ok', 'ok',
+                        tags=('rolling-seq',))
 
     # ---- lp: lpad, pad/crop with an exact stand-in for ft.lp
     for i in range(ctx.n(300, 2500)):
@@ -919,6 +1239,9 @@ def correspondence(ctx):
                 out = smooth.smooth_interpolate_savgol(sig, window=case['window'], order=case['order'])
         except Exception as e:
             out = _err(e)
+        if i % 2 == 0:
+            r = oracle_sinterp(case)
+            ctx.compare('sinterp-seq', dict(case, op='sinterp-seq'), r or 'ok', 'ok', tags=('sinterp-seq',))
         line = f"sinterp {case['window']} {case['order']} " + ','.join('n' if v is None else _bits(v) for v in case['signal'])
 
         def fn(ans, case=case, out=out, sig=sig):
@@ -1000,7 +1323,8 @@ def correspondence(ctx):
     extra = []
     for lay in sel:
         case = {'family': 'cadzow', 'layout': lay, 'seed': int(rng.integers(0, 2 ** 31)),
-                'k': [float(rng.uniform(-0.03, 0.03)), float(rng.uniform(-0.03, 0.03))]}
+                'k': [float(rng.uniform(-0.03, 0.03)), float(rng.uniform(-0.03, 0.03))],
+                'purity': bool(len(lay['x']) <= 40 or rng.random() < 0.15)}
         r = oracle_cadzow(case)
         ctx.compare('cadzow-real', dict(case, op='cadzow-real'), r or 'ok', 'ok',
                     tags=('cadzow-real', 'cadzow_' + lay['kind']))
@@ -1062,6 +1386,10 @@ def correspondence(ctx):
         ratios.append(float(np.sum(np.abs(out - P) ** 2) / np.sum(np.abs(N) ** 2)))
     if ratios:
         ctx.note(f'noise energy ratio after rank-1 cadzow on dense layouts: {min(ratios):.3f}..{max(ratios):.3f} (oracle threshold < 1)')
+    for k, v in sorted(PURITY_STATS.items()):
+        ctx.dist['seq: ' + k] += v
+    ctx.note('call sequences (same call repeated on the SAME argument objects among other library calls; results must be those of the '
+             'original values): ' + ', '.join(f'{k} = {v}' for k, v in sorted(PURITY_STATS.items())))
     ctx.note(f'rolling_window lengths enumerated completely for n <= {box}, window_len <= n + 2')
 
 
@@ -1086,7 +1414,8 @@ def _candidates(ctx):
         op = c.pop('op', None)
         fam = {'venn': 'venn', 'stack': 'stack', 'rollen': 'rolling', 'rolling': 'rolling', 'lp': 'lp', 'lpad': 'lp', 'lp-real': 'lp',
                'savgol': 'savgol', 'savgol-poly': 'savgol', 'sinterp': 'sinterp', 'traj': 'cadzow', 'denoise-standin': 'cadzow',
-               'cadzow-real': 'cadzow', 'derank-rank': 'cadzow', 'svdplan': 'svd', 'svd-real': 'svd', 'allot': 'svd'}.get(op)
+               'cadzow-real': 'cadzow', 'derank-rank': 'cadzow', 'svdplan': 'svd', 'svd-real': 'svd', 'allot': 'svd',
+               'venn-seq': 'venn', 'stack-seq': 'stack', 'rolling-seq': 'rolling', 'sinterp-seq': 'sinterp'}.get(op)
         if fam is None:
             continue
         c['family'] = fam
@@ -1149,9 +1478,30 @@ def _candidates(ctx):
     return out
 
 
+def _fails_standalone(case):
+    """Re-run the oracle on `case` in a fresh interpreter: a replay must not depend on what this process did before."""
+    import json
+    import os
+    import subprocess
+    import sys
+    code = ('import json,sys,numpy as np\nfrom props import c20\ncase=json.loads(sys.stdin.read())\n'
+            'with np.errstate(all="ignore"):\n    r=c20.ORACLES[case["family"]](case)\nprint("RESULT", json.dumps(r))')
+    env = dict(os.environ, PYTHONPATH=os.pathsep.join(p for p in sys.path if p))
+    try:
+        p = subprocess.run([sys.executable, '-c', code], input=json.dumps(case, default=str), capture_output=True, text=True,
+                           env=env, timeout=600)
+        for line in p.stdout.splitlines():
+            if line.startswith('RESULT '):
+                return json.loads(line[7:])
+        return f'oracle process failed: {p.stderr[-300:]}'
+    except Exception as e:
+        return None if isinstance(e, subprocess.TimeoutExpired) else f'oracle process failed: {e}'
+
+
 def search(ctx, reasons):
     best = None
     cands = sorted(_candidates(ctx), key=_size)          # smallest description first: the first failure is the reported one
+    tries = 0
     for case in cands:
         fn = ORACLES.get(case.get('family'))
         if fn is None:
@@ -1162,8 +1512,14 @@ def search(ctx, reasons):
         except Exception as e:
             r = f'oracle raised {type(e).__name__}: {e}'
         if r:
-            best = (case, r)
-            break
+            alone = _fails_standalone(case)              # the replay has to be self-contained
+            tries += 1
+            if alone:
+                best = (case, alone)
+                break
+            ctx.note(f'search: {case.get("family")} case failed only after earlier calls in this process, not on its own: skipped')
+            if tries >= 30:
+                break
     if best is None:
         return None
     case, r = best
